@@ -2,6 +2,14 @@
 // Every unit instantiates the REAL TFEL template with the recording scalar verif::Sym.
 // Naming: N<d>_<f> is a function, N<d>_<d...> the helper documented as its derivative.
 #include "tracehelp.hxx"
+// glue.hxx (shared) has no result type for the unary minus of a Sym; `dn1_ds = -dn0_ds` in
+// StensorComputeEigenTensorsDerivatives<2u> needs it (same rule as for the built-in reals)
+namespace tfel::math {
+  template <>
+  struct ComputeUnaryOperationResult<ScalarTag, UnaryOperatorTag, verif::Sym, OpNeg> {
+    using type = verif::Sym;
+  };
+}  // namespace tfel::math
 #include "TFEL/Math/stensor.hxx"
 #include "TFEL/Math/tensor.hxx"
 #include "TFEL/Math/st2tost2.hxx"
@@ -268,6 +276,36 @@ void trace_dim() {
     const t2tot2<N, Sym> r =
         convertSecondPiolaKirchhoffStressDerivativeToFirstPiolaKirchoffStressDerivative(dS, F, s);
     verif::outputs2("r", r, T, T);
+  }
+  // ---------------------------------------------------------------- eigen tensors and their derivatives
+  {
+    Unit u(d + "eigtens");
+    rotation_matrix<Sym> m;
+    verif::fill_inputs2(m, "m", 3, 3);
+    stensor<N, Sym> n0, n1, n2;
+    stensor<N, Sym>::computeEigenTensors(n0, n1, n2, m);
+    verif::outputs("n0_", n0, S);
+    verif::outputs("n1_", n1, S);
+    verif::outputs("n2_", n2, S);
+  }
+  {
+    // value dependent branches (regularisation of 1/(vp_i - vp_j) below eps): traced in concolic mode
+    // with well separated eigenvalues, |vp_i - vp_j| > eps; the path condition is emitted as `_path`
+    Unit u(d + "deig");
+    verif::ctx().concolic = true;
+    tvector<3u, Sym> vp;
+    vp[0] = verif::scalar_input("l0", 1.75);
+    vp[1] = verif::scalar_input("l1", 0.5);
+    vp[2] = verif::scalar_input("l2", -1.25);
+    rotation_matrix<Sym> m;
+    verif::fill_inputs2(m, "m", 3, 3);
+    const Sym eps = verif::scalar_input("eps", 1.e-3);
+    st2tost2<N, Sym> dn0, dn1, dn2;
+    stensor<N, Sym>::computeEigenTensorsDerivatives(dn0, dn1, dn2, vp, m, eps);
+    verif::ctx().concolic = false;
+    verif::outputs2("dn0_", dn0, S, S);
+    verif::outputs2("dn1_", dn1, S, S);
+    verif::outputs2("dn2_", dn2, S, S);
   }
 }
 
